@@ -103,3 +103,27 @@ prop("C18", level="exploration",
      min_nontrivial=dict(quick=3000, thorough=50000),
      min_counters=dict(scripts_executed=dict(quick=100000, thorough=1000000)),
      assumptions=["double subscription of a live (subscriber, topic) pair is out of scope of the statement"])
+
+
+# ---------------------------------------------------------------- C19: per-peer block de-duplication
+prop("C19", level="exploration",
+     stages=[
+         dict(pkg="linktrack", test="TestExhaustive", sub="exh", race=False, exhaustive=True,
+              cases=dict(quick=160, thorough=160), timeout=3600),
+         dict(pkg="linktrack", test="TestRandom", sub="random", race=True,
+              cases=dict(quick=20000, thorough=500000), timeout=3600),
+         dict(pkg="linktrack", test="TestDirect", sub="direct", race=True,
+              cases=dict(quick=5000, thorough=100000), timeout=3600),
+     ],
+     technique="runtime monitoring: in-use ledger monitor over send decisions observed in the messages built by the real responseassembler (capturing message handler), tracker-emptiness via tag-guarded accessor; bounded-exhaustive + random scripts; Go race detector",
+     level_text=("The real responseassembler/peerlinktracker/linktracker are driven through ResponseStream with interleaved requests; the send "
+                 "decision is read off the message actually built. A ledger monitor decides at-most-once-while-in-use, re-sending after all "
+                 "requests finished, no residual tracking state, and the completeness flag, for every script of a small scope and random scripts."),
+     level_note="Ignore-listed blocks of an unfinished request are treated as 'in use' for the must-send rule only (never for the at-most-once rule), so the monitor demands no more than the statement under either reading.",
+     rule=("One evaluation = one exhaustive (start configuration, first op) prefix with all suffixes of 2 requests x 2 links up to the tier length "
+           "enumerated, or one random script (1-4 interleaved requests, 1-3 dedup scopes, 4-6 links, ignore lists, skip counts, present/missing "
+           "traversals, three ways of finishing), or one direct linktracker script. Non-trivial = more than 3 operations executed; distinct by script."),
+     exhaustive_scope="2 requests x 2 links x {present,missing} x finish, 16 start configurations (scopes none/same/different/mixed, ignore list, skip), all op sequences of length <= 4 (quick) / 6 (thorough)",
+     min_nontrivial=dict(quick=5000, thorough=100000),
+     min_counters=dict(scripts_executed=dict(quick=100000, thorough=10000000)),
+     assumptions=["blocks are identified by CID; data passed to SendResponse matches its link"])
